@@ -108,7 +108,7 @@ CONTROLS = {
     "C17": ("c17", "J_C17", c_c17),
 }
 
-SPEC_CONTROLS = ["crc_table", "frame_rle", "neg_matcher_drop", "neg_resync_drop", "neg_capacity_drop"]
+SPEC_CONTROLS = ["crc_table", "frame_rle", "neg_matcher_drop", "neg_resync_drop", "neg_capacity_drop", "neg_tlf_shl", "neg_pending_keep", "neg_pending_32"]
 
 
 def binding_control(vf, pid, nd_path=None):
